@@ -1,6 +1,7 @@
 \* C17: sentences of the documented grammar (one part, or one part + a part of a small pool)
 SPECIFICATION Spec
 CONSTANT Wide = FALSE
+CONSTANT DateOnly = FALSE
 CONSTANT ValidDates <- SentenceDates
 INVARIANT WellFormedAccepted
 CHECK_DEADLOCK FALSE
